@@ -168,6 +168,9 @@ fn key(case: &Value, m: &mut Map<String, Value>) {
         44 => from_str_cap::<44>(ss),
         64 => from_str_cap::<64>(ss),
         100 => from_str_cap::<100>(ss),
+        255 => from_str_cap::<255>(ss),
+        256 => from_str_cap::<256>(ss),
+        300 => from_str_cap::<300>(ss),
         _ => return res_other(m, "inadm", "capacity not instantiated"),
     };
     match r {
